@@ -145,3 +145,48 @@ Example D1_fits :
   fitsb (d_frags D1) (sdoc_fuel D1 - 2) (d_sels D1) = true /\
   fitsb (d_frags D_cyclic) 50 (d_sels D_cyclic) = false.
 Proof. vm_compute. repeat split; reflexivity. Qed.
+
+(** [C13_C04_validate_eq] / [C13_C04_validate_eq_no_gated_impls]: hypotheses met by a schema on which erasure deletes a field
+    and a type (no interfaces, so no implementation can be gated); the common verdict of
+    { a g h { x } } without fa is two "field does not exist" errors, with fa it is valid *)
+From ApiFu Require Vld.ValidatorModel Vld.ProofsCommon Feat.FeaturesVldRules.
+Definition VW3 : Vld.Ast.schema :=
+  let gf t := {| Vld.Ast.f_type := Vld.Ast.StNamed (FeaturesVld.vn t); Vld.Ast.f_args := nil; Vld.Ast.f_req := cons FeaturesVld.vfa nil |} in
+  {| Vld.Ast.s_types := [
+       (FeaturesVld.vn "Int", FeaturesVld.vty nil (Vld.Ast.TScalar Vld.Ast.SInt));
+       (FeaturesVld.vn "H", FeaturesVld.vty (cons FeaturesVld.vfa nil) (Vld.Ast.TObject [(FeaturesVld.vn "x", FeaturesVld.vfd "Int")] nil));
+       (FeaturesVld.vn "Query", FeaturesVld.vty nil
+          (Vld.Ast.TObject [(FeaturesVld.vn "a", FeaturesVld.vfd "Int"); (FeaturesVld.vn "g", gf "Int"); (FeaturesVld.vn "h", gf "H")] nil))];
+     Vld.Ast.s_query := FeaturesVld.vn "Query"; Vld.Ast.s_mutation := None; Vld.Ast.s_subscription := None;
+     Vld.Ast.s_directives := nil; Vld.Ast.s_meta := nil; Vld.Ast.s_impls := nil |}.
+Definition VD3 : Vld.Ast.document :=
+  let fld n c sub := Vld.Ast.SField None None (FeaturesVld.vn n) (FeaturesVld.vp 1 c) nil nil sub in
+  [ Vld.Ast.DOp None None nil nil
+      (Vld.Ast.SelSet None
+         [ fld "a" 3%N None; fld "g" 5%N None;
+           fld "h" 7%N (Some (Vld.Ast.SelSet None [fld "x" 11%N None] (FeaturesVld.vp 1 9))) ]
+         (FeaturesVld.vp 1 1)) ].
+Example C04_validate_eq_hypotheses :
+  FeaturesVld.vok VW3 = true /\ FeaturesVldRules.impls_visible VW3 nil /\
+  ValidatorModel.q_impl_features ValidatorModel.repaired = true /\
+  List.length (Vld.Ast.s_types (FeaturesVld.verase VW3 nil)) = 2%nat /\
+  (match ValidatorModel.validate_model ValidatorModel.repaired ValidatorModel.id_order VW3 nil VD3 with
+   | Vld.Ast.Done errs => List.length errs | _ => 0%nat end) = 2%nat /\
+  ValidatorModel.validate_model ValidatorModel.repaired ValidatorModel.id_order VW3 (cons FeaturesVld.vfa nil) VD3 = Vld.Ast.Done nil.
+Proof.
+  split; [vm_compute; reflexivity|]. split; [intros i l H; discriminate H|].
+  vm_compute. repeat split; reflexivity.
+Qed.
+
+(** the F-view handed to C01's executor: for W without fa, six types; A implements I only (GI is
+    gated), I's implementations in the view are A alone; with fa the view has all eight *)
+From ApiFu Require Exe.ExecData Feat.FeaturesExe.
+Example C01_view_of_W :
+  let leaf := fun (_ : name) (_ : named_type) => ExecData.NScalar ExecData.KInt in
+  map fst (ExecData.types (FeaturesExe.view leaf W [])) = map nm ["Int"; "I"; "J"; "A"; "B"; "Query"] /\
+  ExecData.lookup_type (FeaturesExe.view leaf W []) (nm "A")
+  = Some (ExecData.NObject [(nm "x", ExecData.StNamed (nm "Int"))] [nm "I"]) /\
+  ExecData.impls_of (FeaturesExe.view leaf W []) (nm "I") = [nm "A"] /\
+  List.length (ExecData.types (FeaturesExe.view leaf W [fa])) = 8%nat /\
+  FeaturesExe.view leaf (erase W []) [fa] = FeaturesExe.view leaf W [].
+Proof. vm_compute. repeat split; reflexivity. Qed.
